@@ -33,7 +33,7 @@ def coq_table(spec, hash_defaults_irrelevant=True):
         elif n["kind"] == "p":
             k = "SPlain false" if n.get("outside") else "SPlain true"
         elif n["kind"] == "v":
-            k = "SVar None" if n["vkind"] == "unsupported" else "SVar (Some %d)" % i
+            k = "SVar None" if n["vkind"] in ("unsupported", "mixedset") else "SVar (Some %d)" % i
         else:
             k = "SUndef"
         refs = C.coq_list([str(ids[r[0]]) for r in n.get("refs", [])])
